@@ -228,6 +228,7 @@ func (p *Parser) parseBuffer(buf []byte, last bool) error {
 		case skipNewline:
 			p.line++
 			p.noff = off
+			i = 0
 			for i, b = range buf[off+1:] {
 				if spaceMap[b] != skipChar {
 					break
@@ -358,6 +359,9 @@ func (p *Parser) parseBuffer(buf []byte, last bool) error {
 			p.num.Reset()
 			p.mode = digitMap
 			p.num.I = uint64(b - '0')
+			if len(buf) <= off+1 {
+				continue
+			}
 			for i, b = range buf[off+1:] {
 				if digitMap[b] != numDigit {
 					break
@@ -492,6 +496,7 @@ func (p *Parser) parseBuffer(buf []byte, last bool) error {
 			p.line++
 			p.noff = off
 			p.mode = afterMap
+			i = 0
 			for i, b = range buf[off+1:] {
 				if spaceMap[b] != skipChar {
 					break
